@@ -312,7 +312,10 @@ pub fn run_dtlsctx(run: &mut Run, rng: &mut Rng, is_client: bool, replay: Option
             }
             d } };
         run_inject(run, &mut s, "ctx", 0, &p, false);
-        let Some((k2, v)) = ctx_wait(id, k, &s) else { run.count("dtlsctx:no_snapshot"); return };
+        let Some((k2, v)) = ctx_wait(id, k, &s) else {
+            // the run loop did not finish this datagram: it is dead (panicked task) or stuck
+            run.fail("dead:DtlsTransport(run loop):no-snapshot", &format!("dtlsctx {} {} {}", is_client as u8, base[1], payloads.iter().chain(std::iter::once(&p)).map(|p| hex(p)).collect::<Vec<_>>().join(" ")), "no handshake-context snapshot within the deadline after this datagram");
+            return };
         k = k2; expect = v[0] as u16;
         outs.push(format!("{},{},{},{},{},{},{}", v[0], v[1], v[2], v[3], v[4] - base[4], v[5], v[6]));
         payloads.push(p);
@@ -326,6 +329,18 @@ pub fn run_dtlsctx(run: &mut Run, rng: &mut Rng, is_client: bool, replay: Option
 pub fn special(run: &mut Run, rng: &mut Rng, thorough: bool) {
     let per = if thorough { 3_000 } else { 150 };
     for i in 0..(if thorough { 6_000 } else { 400 }) { run_dtlsctx(run, rng, i % 4 == 3, None); }
+    // the 16-bit receive counter driven to its end: 660 datagrams of 100 in-order empty HelloRequests (a no-op for either role),
+    // then more — `checked_add` fails, the error flag is set and the counter stays
+    for is_client in [false, true] {
+        use rustrtc::transports::dtls::handshake::{HandshakeMessage, HandshakeType as T};
+        let s0 = Session::new(false, is_client, usize::MAX); s0.step(1);
+        drop(s0);
+        let start: u32 = if is_client { 0 } else { 0 };
+        let dgrams: Vec<Vec<u8>> = (0..660u32).map(|d| { let mut pl = bytes::BytesMut::new();
+            for j in 0..100u32 { HandshakeMessage { msg_type: T::HelloRequest, total_length: 0, message_seq: (start + d * 100 + j) as u16, fragment_offset: 0, fragment_length: 0, body: bytes::Bytes::new() }.encode(&mut pl); }
+            let mut r = vec![22u8, 254, 253, 0, 0]; r.extend_from_slice(&(d as u64).to_be_bytes()[2..]); r.extend_from_slice(&(pl.len() as u16).to_be_bytes()); r.extend_from_slice(&pl); r }).collect();
+        run_dtlsctx(run, rng, is_client, Some(dgrams));
+    }
     hvr_flood(run);
     ccs_flood(run, false);
     if thorough { ccs_flood(run, true); }
@@ -387,7 +402,19 @@ pub fn special(run: &mut Run, rng: &mut Rng, thorough: bool) {
     let mut s = Session::new(true, false, usize::MAX);
     let ok = s.wait_connected(4000);
     run.count(if ok { "dtlslive:established_reached" } else { "dtlslive:established_NOT_reached" });
-    for j in 0..per { let tgt = j % 2; let vs = variants(rng, if tgt == 1 { &to_server } else { &to_client }, 1); run_inject(run, &mut s, "established", tgt, &vs[0], true); }
+    // this session's OWN datagrams (other randoms and keys than the reference session): re-injected verbatim its protected records
+    // (client Finished, server CCS + Finished) authenticate under the session keys — the decrypt → `handle_decrypted_record(authenticated)`
+    // path incl. the duplicate-Finished resend runs; mutated they fail authentication. Hostile PLAINTEXT under the session keys is not generated.
+    let own: Vec<(usize, Vec<u8>)> = s.wire.lock().clone();
+    let own_to_server: Vec<Vec<u8>> = own.iter().filter(|(d, _)| *d == 1).map(|(_, p)| p.clone()).collect();
+    let own_to_client: Vec<Vec<u8>> = own.iter().filter(|(d, _)| *d == 0).map(|(_, p)| p.clone()).collect();
+    for j in 0..per {
+        let tgt = j % 2;
+        let pool = match (tgt, j % 4 < 2) { (1, true) => &own_to_server, (_, true) => &own_to_client, (1, false) => &to_server, _ => &to_client };
+        if pool.is_empty() { continue; }
+        let pkt = if j % 8 < 2 { rng.pick(pool).clone() } else { variants(rng, pool, 1)[0].clone() };
+        run_inject(run, &mut s, "established", tgt, &pkt, true);
+    }
     run.count(&format!("dtlslive:end_state:established:{}", s.state_text()));
     s.ends[0].t.close();
     s.step(2);
